@@ -50,5 +50,16 @@ for f in ('demo.py', 'NOTES.md'):
 meta = {'property': a.pid, 'confirmed': {'demo_fails_with_change': [rc for rc, _ in res['demo_with_change']], 'demo_passes_without_change': [rc for rc, _ in res['demo_without_change']],
         'repository_suite_with_change': res.get('suite_with_change')}, 'checks_run_against_it': res['checks'],
         'caught_by': [c for c, v in res['checks'].items() if v['exit'] == 1], 'needs_to_manifest': '(see NOTES.md)', 'ran': 'tools/try_seed.py %s' % ' '.join(sys.argv[1:])}
+try:
+  old = json.load(open(os.path.join(dst, 'meta.json')))
+  if meta['confirmed']['repository_suite_with_change'] is None:
+    meta['confirmed']['repository_suite_with_change'] = old['confirmed'].get('repository_suite_with_change')
+  for k in ('needs_to_manifest', 'first_attempt', 'status', 'base_commit', 'history'):
+    if k in old and (k not in meta or meta[k] == '(see NOTES.md)'):
+      meta[k] = old[k]
+  if old.get('caught_by') == [] and meta['caught_by'] and 'first_attempt' not in meta:
+    meta['first_attempt'] = 'MISSED by %s as first built; caught after the check was widened (see DESIGN.md section 11)' % ','.join(old.get('checks_run_against_it', {}))
+except FileNotFoundError:
+  pass
 json.dump(meta, open(os.path.join(dst, 'meta.json'), 'w'), indent=1)
 print('demo ok:', ok_demo, ' caught by:', meta['caught_by'])
